@@ -921,14 +921,29 @@ func main() {
 		}
 		// where MedianPastTime / Height come from: the assignments to the block object's fields in PreCheckBlock
 		preIn := newInliner(chain, pre)
+		// (emitted in the order of the field names, not of the statements: the two stores go to different fields and
+		// neither right-hand side reads the object they are stored into — checked below — so their order is not a fact)
+		var preAssigns []sh
+		preDependent := false
 		ast.Inspect(pre.Body, func(n ast.Node) bool {
 			if as, ok := n.(*ast.AssignStmt); ok && len(as.Lhs) == 1 && len(as.Rhs) == 1 {
 				if se, ok := as.Lhs[0].(*ast.SelectorExpr); ok && (se.Sel.Name == "MedianPastTime" || se.Sel.Name == "Height") {
-					add("pre/assign-"+se.Sel.Name, render(se, env)+" "+as.Tok.String()+" "+render(preIn.expand(as.Rhs[0], 2), env))
+					rhs := preIn.expand(as.Rhs[0], 2)
+					other := map[string]string{"MedianPastTime": "Height", "Height": "MedianPastTime"}[se.Sel.Name]
+					if id, ok := se.X.(*ast.Ident); !ok || mentionsSel(rhs, id.Name, other) || hasCallOn(rhs, id.Name) {
+						preDependent = true // the store reads the object it writes: the order of the two stores is kept as a fact
+					}
+					preAssigns = append(preAssigns, sh{"pre/assign-" + se.Sel.Name, render(se, env) + " " + as.Tok.String() + " " + render(rhs, env)})
 				}
 			}
 			return true
 		})
+		if !preDependent {
+			sort.SliceStable(preAssigns, func(i, j int) bool { return preAssigns[i].name < preAssigns[j].name })
+		}
+		for _, a := range preAssigns {
+			add(a.name, a.val)
+		}
 		// the commitment search: direction and bounds of the loop around the commitment guard
 		for _, g := range chain.allGuards(post) {
 			if g.fd == post && mentions(g.in.expand(g.cond, 2), "Pk_script") && hasLit(g.in.expand(g.cond, 2)) {
@@ -946,9 +961,20 @@ func main() {
 		// the lock-time cut-off handed to CheckTransactions: `if VerifyFlags & VER_CSV != 0 { t = MedianPastTime } else { t = BlockTime() }`
 		ast.Inspect(post.Body, func(n ast.Node) bool {
 			if is, ok := n.(*ast.IfStmt); ok && mentions(is.Cond, "VER_CSV") && len(is.Body.List) == 1 {
-				s := "if " + shapeNNF(toNNF(is.Cond, false, env), env) + " { " + renderSimpleStmt(is.Body.List[0], env) + " }"
-				if eb, ok := is.Else.(*ast.BlockStmt); ok && len(eb.List) == 1 {
-					s += " else { " + renderSimpleStmt(eb.List[0], env) + " }"
+				// `if c {A} else {B}` and `if !c {B} else {A}` are one shape: of the condition and its negation (both in
+				// negation normal form) the one whose text sorts first is written, with the branch it selects first
+				c, nc := shapeNNF(toNNF(is.Cond, false, env), env), shapeNNF(toNNF(is.Cond, true, env), env)
+				thenS, elseS := renderSimpleStmt(is.Body.List[0], env), ""
+				eb, hasElse := is.Else.(*ast.BlockStmt)
+				if hasElse && len(eb.List) == 1 {
+					elseS = renderSimpleStmt(eb.List[0], env)
+					if nc < c {
+						c, thenS, elseS = nc, elseS, thenS
+					}
+				}
+				s := "if " + c + " { " + thenS + " }"
+				if elseS != "" {
+					s += " else { " + elseS + " }"
 				}
 				add("post/locktime-cutoff", s)
 			}
@@ -965,18 +991,57 @@ func main() {
 				renderNames[n.Name] = fmt.Sprintf("$%d", np) // (block_height, block_time) by position
 			}
 		}
+		// Rules are numbered in source order, EXCEPT that a run of adjacent rules of the form `if c { v |= K }` — same
+		// plain variable v, K constant, c (helpers expanded) not reading v — is written in the order of the rule texts:
+		// OR-ing constants into v commutes and no condition of the run can see the difference, so the order inside such
+		// a run is not a fact. A rule that assigns (`v = K`), has another destination, a non-constant right-hand side or
+		// a condition that reads v ends the run and keeps its position.
 		nrule := 0
+		var run []string
+		flush := func() {
+			sort.Strings(run)
+			for _, r := range run {
+				nrule++
+				add(fmt.Sprintf("flags/rule-%d", nrule), r)
+			}
+			run = nil
+		}
+		runVar := ""
 		for i, st := range gbf.Body.List {
 			is, ok := st.(*ast.IfStmt)
 			if !ok {
+				if _, isRet := st.(*ast.ReturnStmt); !isRet {
+					flush() // any other statement between two rules separates them
+				}
 				continue
 			}
-			if len(is.Body.List) != 1 || is.Else != nil {
+			if len(is.Body.List) != 1 || is.Else != nil || is.Init != nil {
 				die("GetBlockFlags: rule %d is not `if cond { one assignment }`", i)
 			}
-			nrule++
-			add(fmt.Sprintf("flags/rule-%d", nrule), shapeNNF(toNNF(gin.expand(is.Cond, 2), false, env), env)+" => "+renderSimpleStmt(is.Body.List[0], env))
+			cond := gin.expand(is.Cond, 2)
+			text := shapeNNF(toNNF(cond, false, env), env) + " => " + renderSimpleStmt(is.Body.List[0], env)
+			commutes := false
+			if as, ok := is.Body.List[0].(*ast.AssignStmt); ok && as.Tok == token.OR_ASSIGN && len(as.Lhs) == 1 && len(as.Rhs) == 1 {
+				if v, ok := as.Lhs[0].(*ast.Ident); ok {
+					if _, isConst := eval(as.Rhs[0], env); isConst && !mentions(cond, v.Name) && !hasCall(cond) {
+						commutes = true
+						if runVar != v.Name {
+							flush()
+							runVar = v.Name
+						}
+					}
+				}
+			}
+			if !commutes {
+				flush()
+				runVar = ""
+				nrule++
+				add(fmt.Sprintf("flags/rule-%d", nrule), text)
+				continue
+			}
+			run = append(run, text)
 		}
+		flush()
 		renderNames = nil
 		if abf := chain.funcs["Chain.ApplyBlockFlags"]; abf != nil && len(abf.Body.List) == 1 {
 			add("flags/apply", renderSimpleStmt(abf.Body.List[0], env))
@@ -1013,11 +1078,16 @@ func main() {
 		def("retargetParentSteps", fmt.Sprint(steps), "GetNextWorkRequired: number of `prv = prv.Parent` steps back to the first block of the period")
 		// base weight: every expression of BuildTxListExt that measures the counter (VLenSize)
 		btl := btcPkg.get("Block", "BuildTxListExt")
+		// (read through unexported single-return helpers, two levels, and through widening integer conversions — see
+		// inliner.arith in shape.go: `uint(blockBaseWeight(bl.TxCount))` is the same fact as the expression written out)
 		nbw := 0
+		btlIn := &inliner{btcPkg, nil}
 		ast.Inspect(btl.Body, func(n ast.Node) bool {
-			if as, ok := n.(*ast.AssignStmt); ok && len(as.Rhs) == 1 && mentions(as.Rhs[0], "VLenSize") {
-				nbw++
-				add(fmt.Sprintf("build/base-weight-%d", nbw), render(as.Rhs[0], env))
+			if as, ok := n.(*ast.AssignStmt); ok && len(as.Rhs) == 1 {
+				if rhs := btlIn.arith(as.Rhs[0], 2); mentions(rhs, "VLenSize") {
+					nbw++
+					add(fmt.Sprintf("build/base-weight-%d", nbw), render(rhs, env))
+				}
 			}
 			return true
 		})
